@@ -6,6 +6,20 @@
 //! the deadline, in any order, then released) the buffer must hold exactly the entry's expansion
 //! (plus the smart space when enabled); typing that forms no chord must pass through unchanged;
 //! shift / altgr must be back to what the user holds.
+//!
+//! Scenario families (all judged by the same text-buffer model):
+//! * every entry, every permutation of its last chord, with / without modifiers, with further typing;
+//! * typing that forms no chord; a too-slow chord; deadline restart by an activation; slow follow-ups;
+//! * a top-level chord typed right after another line was completed and fully released — in particular
+//!   a chord whose keys are a strict part of a multi-key follow-up chord that is still pending
+//!   ("dy abc" pending, "ab" typed): the earlier text stays, the chord expands as if typed alone;
+//! * a chord activates, SOME of its keys are released, then a longer chord containing it is completed
+//!   in the same hold ("pr" / "pra", "12" / "1234"): only the longer expansion remains.
+//!
+//! Known findings are keyed on the exact structural precondition of the defect of the unchanged tree and,
+//! where the defect's outcome can be stated in one line (#18: zippy resets, keys appear literally;
+//! second completion of a chord in one hold: erase counter forgotten), ALSO on that outcome: a different
+//! wrong text in the same structure gets the suffix `:other-outcome` and is not covered.
 
 use crate::core::rng::Rng;
 use crate::core::sim::{code_name, osc, render_hist, Ev, FileMap, Out, OutKind, Sim};
@@ -146,6 +160,13 @@ fn gen_dict(rng: &mut Rng) -> Dict {
             continue;
         }
         c.push(*rng.pick(&extra));
+        // sometimes two keys at once, so that there is no chord in between ("12" / "1234")
+        if rng.chance(1, 3) && c.len() < 5 {
+            let extra2: Vec<char> = POOL.iter().copied().filter(|k| !c.contains(k)).collect();
+            if !extra2.is_empty() {
+                c.push(*rng.pick(&extra2));
+            }
+        }
         let p = vec![c.iter().copied().collect::<BTreeSet<char>>()];
         if !d.has_path(&p) {
             let out = if rng.chance(1, 2) { gen_out(rng, Some(&b.out)) } else { gen_out(rng, None) };
@@ -182,6 +203,31 @@ fn gen_dict(rng: &mut Rng) -> Dict {
             }
         }
     }
+    // a multi-key follow-up chord that strictly contains a top-level chord of the dictionary
+    // ("dy abc" next to "ab"): after "dy" the keys a+b are at the same time the complete top-level
+    // chord and a part of the pending follow-up
+    if rng.chance(2, 5) {
+        let tops: Vec<Entry> = d.entries.iter().filter(|e| e.chords.len() == 1 && e.chords[0].len() <= 3).cloned().collect();
+        let parents: Vec<Entry> = d.entries.iter().filter(|e| e.chords.len() <= 2).cloned().collect();
+        if !tops.is_empty() && !parents.is_empty() {
+            let t = rng.pick(&tops).clone();
+            let b = rng.pick(&parents).clone();
+            let mut c = t.chords[0].clone();
+            let extra: Vec<char> = POOL.iter().chain(FPOOL.iter()).copied().filter(|k| !c.contains(k)).collect();
+            c.push(*rng.pick(&extra));
+            if rng.chance(1, 4) {
+                let extra2: Vec<char> = POOL.iter().copied().filter(|k| !c.contains(k)).collect();
+                c.push(*rng.pick(&extra2));
+            }
+            let mut chords = b.chords.clone();
+            chords.push(c);
+            let share = rng.chance(1, 3);
+            let e = Entry { chords, out: gen_out(rng, if share { Some(&t.out) } else { None }) };
+            if !d.has_path(&e.path()) {
+                d.entries.push(e);
+            }
+        }
+    }
     // a line that starts with a single key ("r df")
     if rng.chance(1, 5) {
         let k = *rng.pick(&FPOOL);
@@ -214,6 +260,11 @@ fn fixed_dicts() -> Vec<Dict> {
         Dict { entries: vec![e("ab", "xyz"), e("abc", "pqr"), e("abcd", "lmn")] },
         Dict { entries: vec![e("gh", "hi"), e("ghef", "bye"), e("rq", "request"), e("rqa", "request assistance")] },
         Dict { entries: vec![e("ab", "Hello"), e("cd", "World"), e("ab cd", "both"), e("cd ab", "htob")] },
+        // a top-level chord that is a strict part of a pending follow-up chord
+        Dict { entries: vec![e("dy", "day"), e("dy abc", "alphabet"), e("ab", "abba")] },
+        Dict { entries: vec![e("gh", "go"), e("gh cde", "code"), e("cd", "seedy"), e("de", "dee"), e("gh cde f", "coffee")] },
+        // a chord and a longer one two keys apart, nothing in between ("12" / "1234" of the repository's tests)
+        Dict { entries: vec![e("ab", "hi"), e("abcd", "bye"), e("ef", "pre"), e("efg", "partner"), e("ef h", "pull request")] },
     ]
 }
 
@@ -479,6 +530,204 @@ fn analyse(d: &Dict, e: &Entry, orders: &[Vec<char>]) -> Structure {
     st
 }
 
+
+/// Idealised walk of one hold over the top-level chords (keys go down and up, nothing else is held at
+/// the start): which top-level nodes are completed on the way, and whether the walk touches one of the
+/// structures that are known to misbehave on their own.
+struct HoldWalk {
+    /// outputs of the top-level nodes whose key set was exactly held after some press, in order
+    chain: Vec<String>,
+    /// key sets of those nodes
+    chain_sets: Vec<BTreeSet<char>>,
+    /// after some press the held keys are exactly a follow-up chord of a node completed in this hold
+    followup_within_hold: bool,
+    /// an output-less (implied) node is completed after another node of this hold
+    empty_node_after_activation: bool,
+    /// the same node is completed twice in a row (its released keys are pressed again before any other)
+    reactivation: bool,
+}
+impl HoldWalk {
+    /// >= 3 activations and two consecutive non-final ones start with the same character (#19)
+    fn chain_shared_prefix(&self) -> bool {
+        let c = &self.chain;
+        c.len() >= 3 && (0..c.len() - 2).any(|w| !c[w].is_empty() && !c[w + 1].is_empty() && c[w].chars().next() == c[w + 1].chars().next())
+    }
+}
+
+/// `evs`: (true = press / false = release, key)
+fn walk_hold(d: &Dict, evs: &[(bool, char)]) -> HoldWalk {
+    let mut w = HoldWalk { chain: vec![], chain_sets: vec![], followup_within_hold: false, empty_node_after_activation: false, reactivation: false };
+    let mut held: BTreeSet<char> = BTreeSet::new();
+    for (press, k) in evs {
+        if !*press {
+            held.remove(k);
+            continue;
+        }
+        held.insert(*k);
+        for q in &w.chain_sets {
+            if d.out_of(&[q.clone(), held.clone()]).is_some() {
+                w.followup_within_hold = true;
+            }
+        }
+        if let Some(o) = d.out_of(&[held.clone()]) {
+            if o.is_empty() && !w.chain.is_empty() {
+                w.empty_node_after_activation = true;
+            }
+            if w.chain_sets.last() == Some(&held) {
+                w.reactivation = true;
+            }
+            w.chain.push(o);
+            w.chain_sets.push(held.clone());
+        }
+    }
+    w
+}
+
+fn push_presses(h: &mut Vec<Ev>, keys: &[char], gaps: &[u32], rng: &mut Rng) {
+    for (i, k) in keys.iter().enumerate() {
+        h.push(Ev::P(osc(&keyname(*k))));
+        if i + 1 < keys.len() {
+            h.push(Ev::T(*rng.pick(gaps)));
+        }
+    }
+}
+
+fn push_releases(h: &mut Vec<Ev>, keys: &[char], gaps: &[u32], rng: &mut Rng) {
+    let mut rel = keys.to_vec();
+    rng.shuffle(&mut rel);
+    for k in rel {
+        h.push(Ev::R(osc(&keyname(k))));
+        h.push(Ev::T(*rng.pick(gaps)));
+    }
+}
+
+fn push_tail(h: &mut Vec<Ev>, tail: Tail) {
+    let tap = |h: &mut Vec<Ev>, k: &str| {
+        h.push(Ev::P(osc(k)));
+        h.push(Ev::T(3));
+        h.push(Ev::R(osc(k)));
+        h.push(Ev::T(3));
+    };
+    match tail {
+        Tail::None => {}
+        Tail::Letter => tap(h, &FOREIGN[0].to_string()),
+        Tail::Dot => tap(h, "."),
+        Tail::LetterDot => {
+            tap(h, &FOREIGN[1].to_string());
+            tap(h, ".");
+        }
+    }
+}
+
+
+fn tail_text(tail: Tail) -> String {
+    match tail {
+        Tail::None => String::new(),
+        Tail::Letter => FOREIGN[0].to_string(),
+        Tail::Dot => ".".to_string(),
+        Tail::LetterDot => format!("{}.", FOREIGN[1]),
+    }
+}
+
+/// Outcome that defect #18 (findings/C20-followup-part-not-in-toplevel.md) predicts for a follow-up
+/// line, used ONLY to keep that known class narrow: zippy resets at the first key after which the held
+/// part of the last chord lies in no top-level chord, so the last chord's keys and everything typed
+/// afterwards appear literally behind the text of the line's earlier chords. `None` when that simple
+/// prediction does not apply (an earlier chord already touches a known structure, the node before the
+/// last chord has no output of its own, or a part of the last chord completes something on the way).
+fn predicted_reset_outcome(d: &Dict, e: &Entry, orders: &[Vec<char>], held_mod: Held, smart: Smart, tail: Tail) -> Option<String> {
+    let n = e.chords.len();
+    if n < 2 {
+        return None;
+    }
+    let pre_entry = Entry { chords: e.chords[..n - 1].to_vec(), out: String::new() };
+    let pst = analyse(d, &pre_entry, &orders[..n - 1]);
+    if pst.ambiguous || pst.followup_part_not_in_toplevel || pst.followup_within_hold || pst.followup_extends_sibling || pst.empty_node_after_activation || pst.chain_shared_prefix {
+        return None;
+    }
+    let pre_path: Vec<BTreeSet<char>> = e.path()[..n - 1].to_vec();
+    let pre_out = d.out_of(&pre_path)?;
+    if pre_out.is_empty() {
+        return None;
+    }
+    let top = d.toplevel_sets();
+    let order = orders.last()?;
+    let mut held: BTreeSet<char> = BTreeSet::new();
+    let mut reset = false;
+    for (i, k) in order.iter().enumerate() {
+        held.insert(*k);
+        if i + 1 == order.len() {
+            break;
+        }
+        let mut p = pre_path.clone();
+        p.push(held.clone());
+        if d.out_of(&p).is_some() || top.contains(&held) {
+            return None;
+        }
+        if !top.iter().any(|t| held.is_subset(t)) {
+            reset = true;
+            break;
+        }
+    }
+    if !reset {
+        return None;
+    }
+    let mut s = expected_entry(&pre_out, smart, Tail::None);
+    for k in order {
+        if held_mod == Held::AltGr {
+            s.push('⌥');
+        }
+        s.push(*k);
+    }
+    s.push_str(&tail_text(tail));
+    Some(s)
+}
+
+/// Outcome that findings/C20-chord-completed-again-in-hold.md predicts for "S completed, part of S
+/// released, the released keys pressed again (S complete a second time), then the other keys of L",
+/// used ONLY to keep that known class narrow. `rest` = the keys pressed after the partial release.
+fn predicted_reactivation_outcome(s_out: &str, l_out: &str, n_s_keys_repressed: usize, rest: &[char], smart: Smart, tail: Tail) -> Option<String> {
+    if s_out.is_empty() || l_out.is_empty() || rest.len() <= n_s_keys_repressed {
+        return None;
+    }
+    let auto = |o: &str| smart != Smart::None && !o.is_empty() && !o.ends_with(' ');
+    // after the second completion the screen shows S's text (and its smart space) again, the erase
+    // counter only knows about the smart space
+    let mut screen: Vec<char> = s_out.chars().collect();
+    let mut counter: i64 = 0;
+    if auto(s_out) {
+        screen.push(' ');
+        counter += 1;
+    }
+    let others = &rest[n_s_keys_repressed..];
+    for k in &others[..others.len() - 1] {
+        screen.push(*k);
+        counter += 1;
+    }
+    let common = s_out.chars().zip(l_out.chars()).take_while(|(a, b)| a == b).count();
+    let erase = (counter - common as i64).max(0) as usize;
+    for _ in 0..erase {
+        screen.pop();
+    }
+    screen.extend(l_out.chars().skip(common));
+    let auto_l = auto(l_out);
+    if auto_l {
+        screen.push(' ');
+    }
+    match tail {
+        Tail::Dot => {
+            if auto_l && smart == Smart::Full {
+                screen.pop();
+            }
+        }
+        _ => {}
+    }
+    let mut t: String = SENTINEL.to_string();
+    t.extend(screen.iter());
+    t.push_str(&tail_text(tail));
+    Some(t)
+}
+
 fn perms(keys: &[char], cap: usize, rng: &mut Rng) -> Vec<Vec<char>> {
     fn rec(cur: &mut Vec<char>, rest: &mut Vec<char>, out: &mut Vec<Vec<char>>) {
         if rest.is_empty() {
@@ -520,7 +769,7 @@ fn run(cfg: &str, file: &str, hist: &[Ev], check_mod_at: Option<usize>) -> Resul
     Ok((sim.normalized(), mods_mid))
 }
 
-const N_FIXED: u64 = 33;
+const N_FIXED: u64 = 45;
 
 fn case_dict(ctx: &Ctx, idx: u64) -> (Dict, Rng) {
     if idx < N_FIXED {
@@ -646,7 +895,19 @@ impl Check for C20Check {
                         }
                     } else {
                         let class = if st.followup_part_not_in_toplevel {
-                            "followup-part-not-in-toplevel-chord"
+                            // the known class covers only the outcome the defect produces (zippy resets,
+                            // the chord's keys appear literally); anything else in the same structure is new
+                            match predicted_reset_outcome(&d, e, &orders, held, smart, tail) {
+                                Some(p) if (shifted && p.to_lowercase() == got.to_lowercase()) || p == got => {
+                                    out.inc("known_18_outcome_as_predicted");
+                                    "followup-part-not-in-toplevel-chord"
+                                }
+                                Some(_) => "followup-part-not-in-toplevel-chord:other-outcome",
+                                None => {
+                                    out.inc("known_18_outcome_not_predictable");
+                                    "followup-part-not-in-toplevel-chord"
+                                }
+                            }
                         } else if st.followup_within_hold {
                             "followup-chord-completed-within-parent-hold"
                         } else if st.followup_extends_sibling {
@@ -859,13 +1120,233 @@ impl Check for C20Check {
                 out.violate("C20:wrong-text:followup-after-pause", format!("chords of {:?} typed {} ms apart: the application shows {got:?} instead of {want:?}", e.line(), deadline + 20), json!({"config": cfg, "files": {"dict.txt": file}, "entry": e.line(), "history": render_hist(&b.hist), "observed": {"text": got}, "expected": {"text": want}}));
             }
         }
+
+        // ---- a top-level chord typed right after another line was completed and fully released: the
+        // earlier line stays on screen and the chord expands as if typed alone, also when its keys are at
+        // the same time a strict part of a follow-up chord that is still pending ("dy abc" pending, "ab" typed)
+        {
+            let tops: Vec<&Entry> = d.entries.iter().filter(|e| e.chords.len() == 1 && e.chords[0].len() >= 2).collect();
+            let mut with_fups: Vec<&Entry> = vec![];
+            let mut without: Vec<&Entry> = vec![];
+            for e in d.entries.iter() {
+                let pl = e.chords.len();
+                let ep = e.path();
+                if d.entries.iter().any(|x| x.chords.len() > pl && x.path()[..pl] == ep[..]) {
+                    with_fups.push(e);
+                } else {
+                    without.push(e);
+                }
+            }
+            let mut parents = with_fups.clone();
+            if !without.is_empty() {
+                parents.push(*rng.pick(&without));
+            }
+            let tcap = ctx.tier.sel(4, 12);
+            for parent in parents {
+                let pl = parent.chords.len();
+                let pp = parent.path();
+                let fups: Vec<BTreeSet<char>> = d.entries.iter().filter(|x| x.chords.len() > pl && x.path()[..pl] == pp[..]).map(|x| x.path()[pl].clone()).collect();
+                let porders: Vec<Vec<char>> = parent
+                    .chords
+                    .iter()
+                    .map(|c| {
+                        let mut c = c.clone();
+                        rng.shuffle(&mut c);
+                        c
+                    })
+                    .collect();
+                let pst = analyse(&d, parent, &porders);
+                if pst.ambiguous || pst.followup_part_not_in_toplevel || pst.followup_within_hold || pst.followup_extends_sibling || pst.empty_node_after_activation || pst.chain_shared_prefix {
+                    continue;
+                }
+                for t in tops.iter() {
+                    let tset: BTreeSet<char> = t.chords[0].iter().copied().collect();
+                    let part_of_pending = fups.iter().any(|f| tset.is_subset(f) && tset != *f);
+                    for order in perms(&t.chords[0], tcap, &mut rng) {
+                        // the keys of the chord must not complete a follow-up chord of the earlier line on the
+                        // way (then the follow-up is meant), and typing the chord alone must be free of the
+                        // known structures
+                        let evs: Vec<(bool, char)> = order.iter().map(|k| (true, *k)).collect();
+                        let w = walk_hold(&d, &evs);
+                        let mut hs: BTreeSet<char> = BTreeSet::new();
+                        let hits_followup = order.iter().any(|k| {
+                            hs.insert(*k);
+                            fups.contains(&hs)
+                        });
+                        if hits_followup {
+                            out.inc("after_line_skipped_keys_complete_a_followup");
+                            continue;
+                        }
+                        if w.followup_within_hold || w.empty_node_after_activation || w.chain_shared_prefix() {
+                            out.inc("after_line_skipped_known_structure");
+                            continue;
+                        }
+                        let held = if rng.chance(1, 4) { Held::LShift } else { Held::None };
+                        let tail = *rng.pick(&[Tail::None, Tail::None, Tail::Letter, Tail::Dot]);
+                        let pause = *rng.pick(&[3u32, 8, deadline + 20]);
+                        let pb = build_entry_timed(&porders, Held::None, Tail::None, &mut rng, None, None);
+                        let mut h = pb.hist.clone();
+                        h.push(Ev::T(pause));
+                        if let Some(m) = held.key() {
+                            h.push(Ev::P(osc(m)));
+                            h.push(Ev::T(2));
+                        }
+                        push_presses(&mut h, &order, &[1, 1, 2, 3], &mut rng);
+                        h.push(Ev::T(*rng.pick(&[2u32, 5, 8])));
+                        push_releases(&mut h, &order, &[0, 1, 2], &mut rng);
+                        h.push(Ev::T(4));
+                        if let Some(m) = held.key() {
+                            h.push(Ev::R(osc(m)));
+                            h.push(Ev::T(3));
+                        }
+                        push_tail(&mut h, tail);
+                        h.push(Ev::T(10));
+                        let Ok((trace, _)) = run(&cfg, &file, &h, None) else { continue };
+                        let (screen, down_end) = replay(&trace, &km);
+                        let got = text(&screen);
+                        let first = expected_entry(&parent.out, smart, Tail::None);
+                        let second = expected_entry(&t.out, smart, tail);
+                        let want = format!("{first}{}", &second[SENTINEL.len()..]);
+                        let same = if held == Held::LShift { got.to_lowercase() == want.to_lowercase() } else { got == want };
+                        out.inc("after_line_scenarios");
+                        out.tag(format!("after-line:{}:{}:k{}:{:?}:{:?}:{}", pl, if part_of_pending { "part-of-pending-followup" } else if fups.is_empty() { "nothing-pending" } else { "unrelated-to-pending" }, order.len(), held, tail, smart.name()));
+                        if same && down_end.is_empty() {
+                            out.inc("toplevel_chord_after_line_exact");
+                            if !fups.is_empty() {
+                                out.inc("toplevel_chord_after_line_with_pending_followups_exact");
+                            }
+                            if part_of_pending {
+                                out.inc("toplevel_chord_part_of_pending_followup_exact");
+                            }
+                        } else {
+                            let w = json!({"config": cfg, "files": {"dict.txt": file}, "earlier_line": parent.line(), "entry": t.line(), "pending_followup_chords": fups.iter().map(|f| f.iter().collect::<String>()).collect::<Vec<_>>(), "press_order": order.iter().collect::<String>(), "held_modifier": format!("{held:?}"),
+                                "history": render_hist(&h), "observed": {"text": got, "keys_down_at_end": down_end, "os_stream": trace.iter().map(|o| o.short()).collect::<Vec<_>>()}, "expected": {"text": want, "case_insensitive": held == Held::LShift, "keys_down_at_end": []}});
+                            let sig = if !same {
+                                if part_of_pending {
+                                    "C20:wrong-text:toplevel-chord-after-line:part-of-pending-followup"
+                                } else if !fups.is_empty() {
+                                    "C20:wrong-text:toplevel-chord-after-line:followups-pending"
+                                } else {
+                                    "C20:wrong-text:toplevel-chord-after-line"
+                                }
+                            } else {
+                                "C20:keys-left-down"
+                            };
+                            out.violate(sig, format!("{:?} completed and released, then the chord {:?} (press order {:?}, {:?} held, smart-space {}): the application shows {got:?} instead of {want:?}", parent.line(), t.line(), order.iter().collect::<String>(), held, smart.name()), w);
+                        }
+                    }
+                }
+            }
+        }
+        // ---- a chord activates, SOME of its keys are released, then the keys of a longer chord that
+        // contains it are completed within the same hold: only the longer chord's expansion remains
+        {
+            let tops: Vec<&Entry> = d.entries.iter().filter(|e| e.chords.len() == 1).collect();
+            let draws = ctx.tier.sel(6, 16);
+            for s_e in tops.iter().filter(|e| e.chords[0].len() >= 2) {
+                let sset: BTreeSet<char> = s_e.chords[0].iter().copied().collect();
+                for l_e in tops.iter() {
+                    let lset: BTreeSet<char> = l_e.chords[0].iter().copied().collect();
+                    if !(sset.is_subset(&lset) && sset != lset) {
+                        continue;
+                    }
+                    let mut seen: BTreeSet<String> = BTreeSet::new();
+                    for _ in 0..draws {
+                        let mut first = s_e.chords[0].clone();
+                        rng.shuffle(&mut first);
+                        let nrel = 1 + rng.usize(first.len() - 1);
+                        let rel: Vec<char> = rng.subset(first.len(), nrel).into_iter().map(|i| first[i]).collect();
+                        let mut rest: Vec<char> = lset.iter().copied().filter(|k| !sset.contains(k) || rel.contains(k)).collect();
+                        rng.shuffle(&mut rest);
+                        let key = format!("{}|{}|{}", first.iter().collect::<String>(), { let mut r = rel.clone(); r.sort(); r.iter().collect::<String>() }, rest.iter().collect::<String>());
+                        if !seen.insert(key) {
+                            continue;
+                        }
+                        let mut evs: Vec<(bool, char)> = first.iter().map(|k| (true, *k)).collect();
+                        evs.extend(rel.iter().map(|k| (false, *k)));
+                        evs.extend(rest.iter().map(|k| (true, *k)));
+                        let w = walk_hold(&d, &evs);
+                        let rest_after = rest.clone();
+                        if w.followup_within_hold || w.empty_node_after_activation {
+                            out.inc("partial_release_skipped_known_structure");
+                            continue;
+                        }
+                        let held = if rng.chance(1, 4) { Held::LShift } else { Held::None };
+                        let tail = *rng.pick(&[Tail::None, Tail::None, Tail::Letter, Tail::Dot]);
+                        let mut h = vec![Ev::T(3)];
+                        if let Some(m) = held.key() {
+                            h.push(Ev::P(osc(m)));
+                            h.push(Ev::T(2));
+                        }
+                        push_presses(&mut h, &first, &[1, 2], &mut rng);
+                        h.push(Ev::T(*rng.pick(&[2u32, 4])));
+                        let mut r2 = rel.clone();
+                        rng.shuffle(&mut r2);
+                        for k in &r2 {
+                            h.push(Ev::R(osc(&keyname(*k))));
+                            h.push(Ev::T(*rng.pick(&[0u32, 1])));
+                        }
+                        h.push(Ev::T(*rng.pick(&[1u32, 3])));
+                        push_presses(&mut h, &rest, &[1, 2], &mut rng);
+                        h.push(Ev::T(*rng.pick(&[2u32, 5, 8])));
+                        let all: Vec<char> = lset.iter().copied().collect();
+                        push_releases(&mut h, &all, &[0, 1, 2], &mut rng);
+                        h.push(Ev::T(4));
+                        if let Some(m) = held.key() {
+                            h.push(Ev::R(osc(m)));
+                            h.push(Ev::T(3));
+                        }
+                        push_tail(&mut h, tail);
+                        h.push(Ev::T(10));
+                        let Ok((trace, _)) = run(&cfg, &file, &h, None) else { continue };
+                        let (screen, down_end) = replay(&trace, &km);
+                        let got = text(&screen);
+                        let want = expected_entry(&l_e.out, smart, tail);
+                        let same = if held == Held::LShift { got.to_lowercase() == want.to_lowercase() } else { got == want };
+                        out.inc("partial_release_scenarios");
+                        let shape = if w.reactivation {
+                            "chord-completed-again"
+                        } else if w.chain_shared_prefix() {
+                            "chain-shared-prefix"
+                        } else if w.chain.len() > 2 {
+                            "via-intermediate-chord"
+                        } else {
+                            "direct"
+                        };
+                        out.tag(format!("partial-release:{shape}:k{}:k{}:rel{}:{:?}:{:?}:{}", sset.len(), lset.len(), rel.len(), held, tail, smart.name()));
+                        out.inc(&format!("structure:partial-release:{shape}:{}", if same { "text-exact" } else { "text-wrong" }));
+                        if same && down_end.is_empty() {
+                            out.inc("longer_chord_after_partial_release_exact");
+                            if lset.len() >= sset.len() + 2 && w.chain.len() == 2 {
+                                out.inc("longer_chord_two_keys_apart_after_partial_release_exact");
+                            }
+                        } else {
+                            let wj = json!({"config": cfg, "files": {"dict.txt": file}, "shorter_entry": s_e.line(), "entry": l_e.line(), "press_order": first.iter().collect::<String>(), "released": r2.iter().collect::<String>(), "then_pressed": rest.iter().collect::<String>(), "held_modifier": format!("{held:?}"),
+                                "completed_on_the_way": w.chain, "history": render_hist(&h), "observed": {"text": got, "keys_down_at_end": down_end, "os_stream": trace.iter().map(|o| o.short()).collect::<Vec<_>>()}, "expected": {"text": want, "case_insensitive": held == Held::LShift, "keys_down_at_end": []}});
+                            let mut shape = shape.to_string();
+                            if w.reactivation && !same {
+                                // the known class covers only the outcome that defect produces
+                                let pred = if w.chain.len() == 3 { predicted_reactivation_outcome(&s_e.out, &l_e.out, rel.len(), &rest_after, smart, tail) } else { None };
+                                match pred {
+                                    Some(p) if (held == Held::LShift && p.to_lowercase() == got.to_lowercase()) || p == got => out.inc("known_reactivation_outcome_as_predicted"),
+                                    Some(_) => shape.push_str(":other-outcome"),
+                                    None => out.inc("known_reactivation_outcome_not_predictable"),
+                                }
+                            }
+                            let sig = if same { "C20:keys-left-down".to_string() } else { format!("C20:wrong-text:longer-chord-after-partial-release:{shape}") };
+                            out.violate(sig, format!("{:?} completed ({:?}), {:?} released, then {:?} pressed so that all keys of {:?} are held ({:?} held, smart-space {}): the application shows {got:?} instead of {want:?}", s_e.line(), first.iter().collect::<String>(), r2.iter().collect::<String>(), rest.iter().collect::<String>(), l_e.line(), held, smart.name()), wj);
+                        }
+                    }
+                }
+            }
+        }
         if idx % 200 == 30 || idx == 0 {
             out.sample = Some(json!({"idx": idx, "dictionary": file, "smart_space": smart.name(), "deadline": deadline}));
         }
         out
     }
     fn rule(&self) -> String {
-        "case = one dictionary (33 cases with fixed dictionaries that are the same for every seed: the guide's / the tests' samples and the known-finding witnesses; then generated: 2-4 top-level chords of 2-4 keys over a-h, chords extending other chords by one key up to three levels with and without a shared output prefix, follow-up chords of 1-3 keys up to depth 3 incl. keys that occur in no top-level chord, nodes with empty output, upper/lower-case outputs with inner and trailing spaces) x one smart-space setting (idx mod 3) x deadline 30/500. Every entry is typed with every permutation of its last chord's keys (capped at 24 quick / 120 thorough; earlier chords in random order), gaps 1-3 ms, without modifier and with lsft / rsft / ralt held, followed by nothing / a foreign letter / a dot / both; then 4-8 random non-chord typings (taps, rolled pairs that are no subset of a chord, shift, punctuation, pauses), one too-slow chord, for every entry that extends another entry: the smaller chord first, the extending keys deadline-5 ms (must extend: an activation restarts the deadline) and deadline+5 ms (must pass through) after it, and every follow-up line with deadline+20 ms between its chords. Non-trivial = entry scenario replayed through the text-buffer model; distinct = (shape, depth, chord size, modifier, tail, smart-space).".into()
+        "case = one dictionary (45 cases with fixed dictionaries that are the same for every seed: the guide's / the tests' samples and the known-finding witnesses; then generated: 2-4 top-level chords of 2-4 keys over a-h, chords extending other chords by one or two keys up to three levels with and without a shared output prefix, follow-up chords of 1-3 keys up to depth 3 incl. keys that occur in no top-level chord, in 2 of 5 dictionaries a follow-up chord that strictly contains a top-level chord, nodes with empty output, upper/lower-case outputs with inner and trailing spaces) x one smart-space setting (idx mod 3) x deadline 30/500. Every entry is typed with every permutation of its last chord's keys (capped at 24 quick / 120 thorough; earlier chords in random order), gaps 1-3 ms, without modifier and with lsft / rsft / ralt held, followed by nothing / a foreign letter / a dot / both; then 4-8 random non-chord typings (taps, rolled pairs that are no subset of a chord, shift, punctuation, pauses), one too-slow chord, for every entry that extends another entry: the smaller chord first, the extending keys deadline-5 ms (must extend: an activation restarts the deadline) and deadline+5 ms (must pass through) after it, and every follow-up line with deadline+20 ms between its chords; AFTER-LINE family: every line that has follow-up lines (plus one that has none) is completed and fully released, then (3 ms / 8 ms / deadline+20 ms later) every top-level chord is typed in up to 4 (thorough 12) press orders, sometimes with lsft, with a tail - orders whose keys complete a follow-up chord of the earlier line on the way are skipped (the follow-up is meant), the counter toplevel_chord_part_of_pending_followup_exact counts chords that are a strict part of a pending multi-key follow-up chord (the generator adds such a follow-up to 2 of 5 dictionaries); PARTIAL-RELEASE family: for every pair of top-level chords S < L (the generator extends chords by one or by two keys): S in random order, a random non-empty proper subset of S released, then the released keys and the keys of L-S in random order (6 draws per pair, thorough 16), all within the deadline, sometimes with lsft, with a tail; classified by what is completed on the way (direct / via another chord / S a second time / >=3 completions with shared first character). Non-trivial = entry scenario replayed through the text-buffer model; distinct = (shape, depth, chord size, modifier, tail, smart-space).".into()
     }
     fn assumptions(&self) -> Vec<String> {
         vec![
@@ -873,7 +1354,10 @@ impl Check for C20Check {
             "with shift held the first output character is capitalised by design, so those scenarios are compared case-insensitively and additionally require the shift key to be down again afterwards".into(),
             "follow-up scenarios in which a proper subset of the follow-up chord is itself a top-level chord are not judged (the guide does not say which wins)".into(),
             "only letters and spaces as outputs; output-character-mappings (no-erase, single-output) are not generated".into(),
-            "chord keys are released before the next chord of a line and before further typing".into(),
+            "chord keys are released before the next chord of a line and before further typing; the only partial releases are those of the partial-release family (one release phase after the first activation, no release between the later presses)".into(),
+            "after-line family: an order in which the keys pressed so far are exactly a follow-up chord of the line completed before is not judged (the follow-up is meant); a chord that is only a strict part of a pending follow-up chord IS judged: pressing exactly the keys of a top-level chord and releasing them must expand that chord".into(),
+            "partial-release family: top-level chords only (inside follow-up chords the sibling-follow-up finding applies); scenarios in which the held keys are exactly a follow-up chord of something completed in the same hold, or reach an output-less node after an activation, are not judged".into(),
+            "the known classes 'followup-part-not-in-toplevel-chord' and 'longer-chord-after-partial-release:chord-completed-again' cover only the outcome their defect produces where that outcome is simple to state (earlier text + literal keys; stale erase counter); the prediction is used for nothing else".into(),
         ]
     }
     fn floors(&self, _ctx: &Ctx) -> Vec<(&'static str, u64)> {
@@ -891,6 +1375,11 @@ impl Check for C20Check {
             ("extension_after_deadline_passed_through", 300),
             ("slow_followup_exact", 300),
             ("backspaces_counted", 20_000),
+            ("toplevel_chord_after_line_exact", 30_000),
+            ("toplevel_chord_after_line_with_pending_followups_exact", 20_000),
+            ("toplevel_chord_part_of_pending_followup_exact", 1_500),
+            ("longer_chord_after_partial_release_exact", 8_000),
+            ("longer_chord_two_keys_apart_after_partial_release_exact", 3_000),
         ]
     }
 }
